@@ -38,6 +38,9 @@ CAST_TO = {
 
 FILLNA = {"nansum": 0, "nanprod": 1}
 
+# reductions whose result grows with the number of members
+ACCUMULATES = ("nansum", "nanprod", "nansum_of_squares", "nancount")
+
 
 def _numbagg_wrapper(
     group_idx,
@@ -55,6 +58,10 @@ def _numbagg_wrapper(
         for from_, to_ in cast_to.items():
             if np.issubdtype(array.dtype, from_):
                 array = array.astype(to_, copy=False)
+
+    # numbagg accumulates in the dtype of the data: widen (NaN-free) integers towards the requested dtype first
+    if dtype is not None and array.dtype.kind in "iub" and func in ACCUMULATES:
+        array = array.astype(np.result_type(array.dtype, dtype), copy=False)
 
     func_ = getattr(numbagg.grouped, f"group_{func}")
 
@@ -118,7 +125,7 @@ def nanlen(group_idx, array, *, axis=-1, size=None, fill_value=None, dtype=None)
         size=size,
         func="nancount",
         # fill_value=fill_value,
-        # dtype=dtype,
+        dtype=dtype,
     )
 
 
